@@ -101,6 +101,8 @@ def deltas_cases(draw):
         "layout": draw(st.sampled_from(LAYOUTS)),
         "in_place": draw(st.sampled_from([False, False, False, True])),
         # one non-finite entry in the data (float dtypes): frames out of the filters' reach keep finite deltas
+        "later_other": draw(st.sampled_from([None, None, 1, 2])),
+        "prior_axis": draw(st.sampled_from([None, None, 0, 1, 2, -1])),
         "poke": draw(st.one_of(st.none(), st.none(), st.none(), st.fixed_dictionaries({
             "pos": st.integers(0, 2 ** 20), "val": st.sampled_from(["nan", "nan", "inf", "-inf"])}))),
     }
@@ -138,10 +140,20 @@ def check_deltas(case):
         "Deltas(%d, target_axis=%d, concatenate=%s, context_window=%d, pad_mode=%r)" % (nd, target, cc, W, mode),
         Deltas, nd, target_axis=target, concatenate=cc, context_window=W, pad_mode=mode,
     )
+    if case.get("later_other"):
+        # a second Deltas object with the same context window and MORE orders is built (and used) after the judged one:
+        # anything derived from (context window, order) belongs to each object
+        other2 = Deltas(nd + case["later_other"], context_window=W)
+        other2.apply(np.arange(12.0).reshape(6, 2), axis=0)
     if case.get("prior"):
         # the same post-processor object may already have been applied to another tensor
         pshape = [max(2, v) for v in case["prior"]]
         call("Deltas.apply (earlier call)", d.apply, make_tensor(pshape, "f64", 7, 1.0, "C"), axis=-1)
+    if case.get("prior_axis") is not None and ndim >= 2:
+        # the same object has just filtered a tensor of the SAME shape along ANOTHER axis
+        a2 = case["prior_axis"] % ndim
+        if a2 != axis % ndim and shape[a2] >= (2 if mode == "reflect" else 1) and x.size:
+            call("Deltas.apply (earlier call, same shape, axis=%d)" % a2, d.apply, make_tensor(shape, "f64", 11, 1.0, "C"), axis=a2)
     with np.errstate(all="ignore"):
         out = call("Deltas.apply(axis=%d)" % axis, d.apply, x, axis=axis, in_place=in_place)
         ref, _ = post_ref.deltas_ref(x0, nd, W, mode, axis, target, cc)
